@@ -1059,9 +1059,38 @@ def apply_mutation(srv, spec, model, ospecs, step):
     raise core.HarnessError("unknown mutation %r" % (step,))
 
 
+def _expand(spec):
+    """`large`: N plain objects (kept out of the spec): all alice's but every 29th, which is
+    bob's; some registered in the same second; every fiftieth carries the name n1."""
+    if not spec.get("large") or spec.get("objs"):
+        return spec
+    objs = [{"t": "OpaqueData", "owner": "alice" if k % 29 else "bob", "pol": None, "state": "PRE_ACTIVE",
+             "names": [["n1", TXT]] if k % 50 == 0 else [], "grps": ["og1"] if k % 2 else [], "asi": [],
+             "mask": None, "sens": None, "dt": 1 if k % 3 else 0, "orphan": False, "gone": False}
+            for k in range(spec["large"])]
+    objs[0]["dt"] = 1
+    return dict(spec, objs=objs)
+
+
+def large_cases(sizes):
+    """Stores far larger than the generated ones: the full list, pages around and beyond every
+    few hundred positions, and walks in pages of 97 - for an unfiltered and a filtered Locate."""
+    out = []
+    for n in sizes:
+        pages = [[n - 30, 10], [n - 5, None], [None, n - 3], [499, 2], [500, 1], [501, None], [None, 500],
+                 [None, 501], [495, 10], [n, 1], [n - 1, 5], [250, 300]]
+        reqs = [{"who": "alice", "groups": None, "v": [1, 4], "f": [], "pages": pages, "walk": 97},
+                {"who": "alice", "groups": None, "v": [1, 2], "f": [["Object Group", "og1"]],
+                 "pages": [[200, None], [None, 255], [255, 3]], "walk": 128},
+                {"who": "bob", "groups": None, "v": [2, 0], "f": [], "pages": [[7, 10]], "walk": None}]
+        out.append({"pols": {}, "large": n, "objs": [], "reqs": reqs})
+    return out
+
+
 def run_case(spec):
     """Runs every request of the spec against a freshly built store.
     Returns a list with one result dict per request."""
+    spec = _expand(spec)
     srv, model = build_store(spec)
     res = []
     ospecs = list(spec.get("objs", []))
@@ -1103,8 +1132,17 @@ def replay(spec):
 
 
 # ------------------------------------------------------------------------------ driver
-def worker(n, seed):
+def worker(n, seed, large=()):
     col = core.Collector(PID)
+    for spec in large:
+        col.bump("stores")
+        col.bump("large_stores")
+        for req, out in zip(spec["reqs"], run_case(spec)):
+            seen = {}
+            for k, d in out["buckets"]:
+                seen.setdefault(k, d)
+            col.record(dict(spec, reqs=[req]), nontrivial=True,
+                       classes=sorted(set(out["classes"] + ["large-store"])), buckets=list(seen.items()))
 
     def one(spec):
         results = run_case(spec)
@@ -1138,8 +1176,10 @@ def run(ctx):
     F.obj_spec("Certificate")
     stores = ctx.n(1600, 32000)
     per = stores // NSHARDS
+    large = large_cases([540] if ctx.quick else [540, 1040, 1600, 519])
     dicts = core.run_sharded("vlib.props.c14", "worker",
-                             [(per, core.derive_seed(ctx.seed, "c14", i)) for i in range(NSHARDS)])
+                             [(per, core.derive_seed(ctx.seed, "c14", i), large[i::NSHARDS])
+                              for i in range(NSHARDS)])
     col = core.merged(PID, dicts)
     col.extra["exhaustive"] = False
     return col
